@@ -460,6 +460,28 @@ def rule_r2_r3(ctx: Ctx, classes: List[ClassInfo]) -> Dict[str, HashInfo]:
     infos: Dict[str, HashInfo] = {}
     for ci in classes:
         hf = ci.methods.get("__hash__")
+        if hf is None and "__hash__" in ci.assigns and not is_const(ci.assigns["__hash__"]):
+            v = ci.assigns["__hash__"]
+            if isinstance(v, ast.Attribute) and isinstance(v.value, ast.Name) and v.attr == "__hash__":
+                src = v.value.id
+                if src in repo.classes and any(k.name == src for k in repo.mro(ci.name)):
+                    ctx.ok("C08-R2", ci.where, f"__hash__ is bound to {src}.__hash__ (a base class's value-based hash, checked there)")
+                    hf = repo.method(src, "__hash__")
+                elif src in ("tuple", "frozenset", "str", "int", "bytes") and any(b.split("[")[0] in (src, src.capitalize(), "Tuple") for k in repo.mro(ci.name) for b in k.base_names):
+                    ctx.ok("C08-R2", ci.where, f"__hash__ is bound to the builtin value hash {src}.__hash__ of its base type")
+                    ctx.ok("C08-R3", ci.where, f"builtin {src} hash: equal {src}s hash equally; the class's __eq__ only adds a class test")
+                elif src == "object":
+                    ctx.violation("C08-R2", ci.where, ci.assign_nodes["__hash__"], f"{ci.name} hashes by identity (object.__hash__) although it defines value equality", file=ci.module.relpath)
+                else:
+                    raise AnalysisError(f"{ci.where}: __hash__ is bound to `{unparse(v)}`, which is not the hash of one of its base types")
+            else:
+                raise AnalysisError(f"{ci.where}: __hash__ is bound to `{unparse(v)}`; not recognised")
+            if hf is None:
+                continue
+            info = analyse_hash(repo, hf)
+            infos[ci.name] = info
+            _r3(ctx, repo, ci, hf, info)
+            continue
         if hf is None:
             continue
         info = analyse_hash(repo, hf)
@@ -470,24 +492,28 @@ def rule_r2_r3(ctx: Ctx, classes: List[ClassInfo]) -> Dict[str, HashInfo]:
                 ctx.violation("C08-R2", bfi, node if hasattr(node, "lineno") else bfi.node, msg)
         else:
             ctx.ok("C08-R2", hf.where, f"hash is value based over fields {sorted(info.fields)}", hf.node, hf)
-        # R3 against the effective __eq__ of the same class
-        ef = effective(repo, ci.name, "__eq__")
-        if ef is None:
-            eqf = {"<tuple>"} if has_value_base(repo, ci.name) else {"<identity>"}
-            odd: List[Tuple[ast.AST, str]] = []
-        else:
-            eqf, odd = eq_fields(repo, ef)
-        for node, msg in odd:
-            ctx.violation("C08-R3", ef, node, f"__eq__ {msg}")
-        hfields = {f for f in info.fields if not f.startswith("<cached:")}
-        if info.bad:
-            continue
-        if hfields <= eqf:
-            ctx.ok("C08-R3", hf.where, f"hash fields {sorted(hfields)} subset of compared fields {sorted(eqf)}", hf.node, hf)
-        else:
-            ctx.violation("C08-R3", hf, hf.node,
-                          f"__hash__ reads {sorted(hfields - eqf)} which {ef.where if ef else 'the inherited __eq__'} does not compare: equal objects may hash differently")
+        _r3(ctx, repo, ci, hf, info)
     return infos
+
+
+def _r3(ctx: Ctx, repo: Repo, ci: ClassInfo, hf: FuncInfo, info: "HashInfo") -> None:
+    """R3 against the effective __eq__ of the class: the hash reads only what equality compares."""
+    ef = effective(repo, ci.name, "__eq__")
+    if ef is None:
+        eqf = {"<tuple>"} if has_value_base(repo, ci.name) else {"<identity>"}
+        odd: List[Tuple[ast.AST, str]] = []
+    else:
+        eqf, odd = eq_fields(repo, ef)
+    for node, msg in odd:
+        ctx.violation("C08-R3", ef, node, f"__eq__ {msg}")
+    hfields = {f for f in info.fields if not f.startswith("<cached:")}
+    if info.bad:
+        return
+    if hfields <= eqf:
+        ctx.ok("C08-R3", f"{ci.where}.__hash__" if hf.cls is not ci else hf.where, f"hash fields {sorted(hfields)} subset of compared fields {sorted(eqf)}", hf.node, hf)
+    else:
+        ctx.violation("C08-R3", hf, hf.node,
+                      f"__hash__ reads {sorted(hfields - eqf)} which {ef.where if ef else 'the inherited __eq__'} does not compare: equal objects may hash differently")
 
 
 def _concrete_pairs(repo: Repo, classes: List[ClassInfo]) -> List[Tuple[str, str]]:
@@ -657,8 +683,11 @@ class OrderEval:
         self.components: Dict[str, ast.AST] = {}
         self.discover = False
 
-    def comp_of(self, fi: FuncInfo, node: ast.AST) -> Optional[Tuple[str, str]]:
-        """(component text with the object replaced by $, which object: 'self' | 'other')"""
+    def comp_of(self, fi: FuncInfo, node: ast.AST, eq_only: bool = False) -> Optional[Tuple[str, str]]:
+        """(component text with the object replaced by $, which object: 'self' | 'other').  Under == / != a set-typed
+        field stands for its sorted listing (two sets are equal iff their sorted listings are)."""
+        if eq_only and isinstance(node, ast.Attribute) and isinstance(node.value, ast.Name) and node.attr in set_typed_fields(self.repo, self.ci.name):
+            node = ast.Call(func=ast.Name(id="sorted", ctx=ast.Load()), args=[node], keywords=[])
         names = {n.id for n in ast.walk(node) if isinstance(n, ast.Name)}
         s_n, o_n = fi.params[0], fi.params[1]
         if s_n in names and o_n in names:
@@ -671,10 +700,10 @@ class OrderEval:
             self.components.setdefault(txt, node)
         return txt, who
 
-    def rel(self, fi: FuncInfo, l: ast.AST, r: ast.AST, case: Dict[str, str]) -> str:
+    def rel(self, fi: FuncInfo, l: ast.AST, r: ast.AST, case: Dict[str, str], eq_only: bool = False) -> str:
         if isinstance(l, ast.Tuple) and isinstance(r, ast.Tuple) and len(l.elts) == len(r.elts):
-            return _lex([self.rel(fi, a, b, case) for a, b in zip(l.elts, r.elts)])
-        cl, cr = self.comp_of(fi, l), self.comp_of(fi, r)
+            return _lex([self.rel(fi, a, b, case, eq_only) for a, b in zip(l.elts, r.elts)])
+        cl, cr = self.comp_of(fi, l, eq_only), self.comp_of(fi, r, eq_only)
         if cl is None or cr is None or cl[0] != cr[0] or cl[1] == cr[1]:
             raise AnalysisError(f"{fi.where}: comparison of `{unparse(l)}` with `{unparse(r)}` is not between the same key component of the two operands")
         if self.discover:
@@ -684,9 +713,45 @@ class OrderEval:
         base = case[cl[0]]  # relation of component(self) to component(other)
         return base if cl[1] == "self" else INV[base]
 
+    # identity tests (`a.f is b.f`) are not determined by the abstract case: equal components may or may not be the same
+    # object.  Every evaluation is therefore repeated for all outcomes of the identity tests it meets.
+    _bits: List[bool] = []
+    _pos: int = 0
+
+    def choose(self) -> bool:
+        if self._pos < len(self._bits):
+            v = self._bits[self._pos]
+        else:
+            self._bits.append(False)
+            v = False
+        self._pos += 1
+        return v
+
+    def all_results(self, fn) -> List:
+        out = []
+        stack: List[List[bool]] = [[]]
+        seen = set()
+        while stack:
+            prefix = stack.pop()
+            self._bits, self._pos = list(prefix), 0
+            out.append(fn())
+            used = self._bits[:self._pos]
+            for i in range(len(prefix), len(used)):
+                alt = tuple(used[:i] + [True])
+                if alt not in seen:
+                    seen.add(alt)
+                    stack.append(list(alt))
+            if len(seen) > 64:
+                raise AnalysisError("too many identity tests in the ordering methods")
+        return out
+
     def expr(self, fi: FuncInfo, node: ast.AST, case: Dict[str, str], depth: int):
         if isinstance(node, ast.Constant) and isinstance(node.value, bool):
             return node.value
+        if isinstance(node, ast.Compare) and len(node.ops) == 1 and isinstance(node.ops[0], (ast.Is, ast.IsNot)) and not (isinstance(node.comparators[0], ast.Constant)):
+            r = self.rel(fi, node.left, node.comparators[0], case, eq_only=True)
+            same = self.choose() if r == "eq" else False
+            return same if isinstance(node.ops[0], ast.Is) else not same
         if isinstance(node, ast.Name) and node.id == "NotImplemented":
             return "NotImplemented"
         if isinstance(node, ast.UnaryOp) and isinstance(node.op, ast.Not):
@@ -703,7 +768,7 @@ class OrderEval:
                 sym = ORDER_OPS.get(type(op))
                 if sym is None:
                     raise AnalysisError(f"{fi.where}: operator in `{unparse(node)}` not supported")
-                out = out and _apply(sym, self.rel(fi, operands[i], operands[i + 1], case))
+                out = out and _apply(sym, self.rel(fi, operands[i], operands[i + 1], case, eq_only=sym in ("==", "!=")))
             return out
         if isinstance(node, ast.Call):
             cn = call_name(node)
@@ -725,16 +790,59 @@ class OrderEval:
                     return self.method(target, case, depth + 1)
         raise AnalysisError(f"{fi.where}: expression `{unparse(node)[:60]}` is outside the comparison fragment")
 
+    def inline(self, fi: FuncInfo, node: ast.AST, env: Dict[str, ast.AST]) -> ast.AST:
+        """substitute simple locals and one-expression helpers (`Cls.key(x)` whose body is straight-line assignments + return)"""
+        from ..core import subst_names
+
+        node = subst_names(node, env) if env else node
+
+        class Inl(ast.NodeTransformer):
+            def visit_Call(inner, call: ast.Call):  # noqa: N805
+                call = inner.generic_visit(call)
+                cn = call_name(call)
+                if cn and len(cn) == 2 and cn[0] in (self.ci.name, "cls", fi.params[0]) and not call.keywords:
+                    h = self.repo.method(self.ci.name, cn[1])
+                    if h is not None and cn[1] not in CMP and cn[1] not in ("__eq__", "__ne__", "__hash__"):
+                        params = h.params if h.is_static else h.params[1:]
+                        args = list(call.args)
+                        if cn[0] == fi.params[0] and not h.is_static and not h.is_classmethod:
+                            params = h.params
+                            args = [ast.Name(id=fi.params[0], ctx=ast.Load())] + args
+                        if len(params) == len(args):
+                            henv: Dict[str, ast.AST] = dict(zip(params, args))
+                            for st in h.body:
+                                if isinstance(st, ast.Assign) and len(st.targets) == 1 and isinstance(st.targets[0], ast.Name):
+                                    henv[st.targets[0].id] = subst_names(st.value, henv)
+                                elif isinstance(st, ast.Return) and st.value is not None:
+                                    return subst_names(st.value, henv)
+                                else:
+                                    return call
+                return call
+
+        return ast.fix_missing_locations(Inl().visit(node))
+
     def method(self, fi: FuncInfo, case: Dict[str, str], depth: int = 0):
+        env: Dict[str, ast.AST] = {}
+
         def block(stmts):
             for st in stmts:
                 if isinstance(st, ast.Return):
-                    return ("ret", self.expr(fi, st.value, case, depth))
+                    return ("ret", self.expr(fi, self.inline(fi, st.value, env), case, depth))
                 if isinstance(st, ast.If):
-                    r = block(st.body if self.expr(fi, st.test, case, depth) else st.orelse)
+                    r = block(st.body if self.expr(fi, self.inline(fi, st.test, env), case, depth) else st.orelse)
                     if r is not None:
                         return r
                     continue
+                if isinstance(st, (ast.Assign, ast.AnnAssign)) and st.value is not None:
+                    tgt = st.targets[0] if isinstance(st, ast.Assign) else st.target
+                    if isinstance(tgt, ast.Name):
+                        env[tgt.id] = self.inline(fi, st.value, env)
+                        continue
+                    if isinstance(tgt, ast.Tuple) and isinstance(st.value, ast.Tuple) and len(tgt.elts) == len(st.value.elts) and all(isinstance(t, ast.Name) for t in tgt.elts):
+                        vals = [self.inline(fi, v, env) for v in st.value.elts]
+                        for t, v in zip(tgt.elts, vals):
+                            env[t.id] = v
+                        continue
                 raise AnalysisError(f"{fi.where}: statement `{unparse(st)[:50]}` is outside the comparison fragment")
             return None
 
@@ -752,13 +860,33 @@ def rule_r6_semantic(ctx: Ctx, ci: ClassInfo, own: List[str]) -> None:
     # discover the key components (first pass with a permissive case map)
     ev.discover = True
     for m in own:
+        # comparisons hidden behind locals / key helpers: collect them from the inlined return expressions
+        fi_m = ci.methods[m]
+        env_m: Dict[str, ast.AST] = {}
+        for st in walk_no_nested(fi_m.node):
+            if isinstance(st, ast.Assign) and len(st.targets) == 1 and isinstance(st.targets[0], ast.Name):
+                env_m[st.targets[0].id] = ev.inline(fi_m, st.value, env_m)
+        for st in walk_no_nested(fi_m.node):
+            if isinstance(st, (ast.Return, ast.If)):
+                e0 = st.value if isinstance(st, ast.Return) else st.test
+                if e0 is None:
+                    continue
+                for node in ast.walk(ev.inline(fi_m, e0, env_m)):
+                    if isinstance(node, ast.Compare):
+                        ops = [node.left] + list(node.comparators)
+                        for (a, b), o in zip(zip(ops, ops[1:]), node.ops):
+                            try:
+                                ev.rel(fi_m, a, b, {}, eq_only=isinstance(o, (ast.Eq, ast.NotEq, ast.Is, ast.IsNot)))
+                            except AnalysisError:
+                                pass
+    for m in own:
         # walk every comparison of the method (both arms of every branch) to collect the components
         for node in walk_no_nested(ci.methods[m].node):
-            if isinstance(node, ast.Compare) and any(type(o) in ORDER_OPS for o in node.ops):
+            if isinstance(node, ast.Compare) and any(type(o) in ORDER_OPS or isinstance(o, (ast.Is, ast.IsNot)) for o in node.ops):
                 ops = [node.left] + list(node.comparators)
-                for a, b in zip(ops, ops[1:]):
+                for (a, b), o in zip(zip(ops, ops[1:]), node.ops):
                     try:
-                        ev.rel(ci.methods[m], a, b, {})
+                        ev.rel(ci.methods[m], a, b, {}, eq_only=isinstance(o, (ast.Eq, ast.NotEq, ast.Is, ast.IsNot)))
                     except AnalysisError:
                         pass
     ev.discover = False
@@ -779,10 +907,13 @@ def rule_r6_semantic(ctx: Ctx, ci: ClassInfo, own: List[str]) -> None:
     for m in own:
         vals = []
         for case in cases:
-            v = ev.method(ci.methods[m], case)
-            if v == "NotImplemented":
+            results = ev.all_results(lambda: ev.method(ci.methods[m], case))
+            if any(v == "NotImplemented" for v in results):
                 raise AnalysisError(f"{ci.methods[m].where}: returns NotImplemented for operands of the group")
-            vals.append(bool(v))
+            if len({bool(v) for v in results}) != 1:
+                ctx.violation("C08-R6", ci.methods[m], ci.methods[m].node, f"{m} gives different answers for equal operands depending on whether a component is the very same object (identity test): when {case}")
+                return
+            vals.append(bool(results[0]))
         table[m] = vals
     sym = {"__lt__": "<", "__le__": "<=", "__gt__": ">", "__ge__": ">="}
     orders = [list(p) for p in itertools.permutations(comps)]
